@@ -195,6 +195,22 @@ func checkCrash(t rep.Fataler, c CrashCase) {
 			if st.Status == dagscheduler.StatusSuccess && !all && !(c.Prior && priorAnswer(st, h, file)) {
 				fail("afterwards the DAG is reported %q although the run was cut short: of %v only %v ran", st.Status, markers, keysOf(ran))
 			}
+			// a run that has been on record does not vanish: once one of its statuses
+			// had been written in full (a completed write to its history file comes
+			// before the kill point), the history shows this run next to the earlier one
+			recorded := false
+			for _, pc := range dry.Calls[:k-1] {
+				if pc.Name == "write" && strings.Contains(pc.Detail, ".dat") && strings.Contains(pc.Detail, "/data/") && !strings.Contains(pc.Detail, "len=0") {
+					recorded = true
+				}
+			}
+			wantRuns := 1
+			if c.Prior {
+				wantRuns = 2
+			}
+			if got := len(h.NewDataStores().HistoryStore().ReadStatusRecent(file, 10)); recorded && got < wantRuns {
+				fail("a status of the run had been recorded before the kill, yet afterwards the history shows %d run(s), expected %d: the run has vanished and the latest status (%q) is not about it", got, wantRuns, st.Status)
+			}
 			// the daemon still handles it: one tick at a matching minute issues a start
 			rc := &recClient{Client: cli}
 			sc := scheduler.New(&config.Config{DAGs: h.DAGs, WorkDir: h.Dir, Executable: "/bin/false", LogDir: h.Logs}, sim.Quiet, rc)
